@@ -101,4 +101,253 @@ theorem precedence_documented (g : Globals) (fparams : List Param) :
     b.e = ((paramSem fparams).e.getD g.maxErrors) ∧ b.o = ((paramSem fparams).o.getD g.minOverlap) ∧
     b.indels = ((paramSem fparams).indels.getD (.bool g.indels)) := ⟨rfl, rfl, rfl⟩
 
+/-! ## Absolute numbers of errors -/
+
+theorem ite_err_ok {ε α : Type} {c : Prop} [Decidable c] {e : ε} {x : Except ε α} {a : α}
+    (h : (if c then Except.error e else x) = .ok a) : x = .ok a := by
+  by_cases hc : c
+  · rw [if_pos hc] at h; cases h
+  · rw [if_neg hc] at h; exact h
+
+theorem ite_ok_cases {ε α : Type} {c : Prop} [Decidable c] {x y : Except ε α} {a : α}
+    (h : (if c then x else y) = .ok a) : x = .ok a ∨ y = .ok a := by
+  by_cases hc : c
+  · rw [if_pos hc] at h; exact Or.inl h
+  · rw [if_neg hc] at h; exact Or.inr h
+
+/-- **`absolute_errors`** (constructor level, every class and keyword dict): the adapter keeps the value `e` given for
+    `max_errors` and a divisor such that its maximum error rate is exactly `e / divisor`; the divisor is the number of non-`N`
+    characters of the (normalised) sequence when `e ≥ 1`, and 1 when `e < 1` (the value is the rate itself). -/
+theorem absolute_errors {cls : Cls} {sq : Str} {name : Option Str} {kw : Params} {a : Single}
+    (h : construct cls sq name kw = .ok a) :
+    a.maxErrors = (Params.get kw .maxErrors).getD (.float ⟨1, 1⟩) ∧ a.sequence = normSeq sq ∧
+    a.divisor = (if a.maxErrors.ge1 = true ∧ nonN a.sequence ≠ 0 then nonN a.sequence else 1) := by
+  unfold construct at h
+  have h3 := ite_err_ok (ite_err_ok (ite_err_ok h))
+  rcases ite_ok_cases h3 with h4 | h4
+  · have h5 := ite_err_ok (ite_err_ok h4)
+    injection h5 with h5; subst h5; exact ⟨rfl, rfl, rfl⟩
+  · have h5 := ite_err_ok (ite_err_ok h4)
+    injection h5 with h5; subst h5; exact ⟨rfl, rfl, rfl⟩
+
+/-- `absolute_errors` as an equation between exact rationals: `rate · (#non-N) = e` whenever `e ≥ 1` and the sequence is not all `N`
+    (`rate = numer / (den · divisor)`, so this is `divisor = #non-N`), and `rate = e` when `e < 1`. -/
+theorem absolute_errors_rate {cls : Cls} {sq : Str} {name : Option Str} {kw : Params} {a : Single}
+    (h : construct cls sq name kw = .ok a) :
+    (a.maxErrors.ge1 = true → nonN a.sequence ≠ 0 → a.divisor = nonN a.sequence) ∧ (a.maxErrors.ge1 = false → a.divisor = 1) := by
+  obtain ⟨_, _, hd⟩ := absolute_errors h
+  constructor
+  · intro h1 h2; rw [hd]; simp [h1, h2]
+  · intro h1; rw [hd]; simp [h1]
+
+/-! ## Rejections: the documented invalid combinations give exit status 2 -/
+
+theorem toKind_error_inv {α : Type} {r : Except Err α} (h : toKind r = .error .cmdline) : ∃ e, r = .error e ∧ e.isCmdline = true := by
+  cases r with
+  | ok a => cases h
+  | error e =>
+    refine ⟨e, rfl, ?_⟩
+    simp only [toKind, kindOf] at h
+    cases hk : e.isCmdline with
+    | true => rfl
+    | false =>
+      rw [hk] at h
+      simp only [Bool.false_eq_true, if_false] at h
+      split at h <;> cases h
+
+/-- **`rejected`** (general form): whenever the documented meaning of a well-formed specification is "invalid", the parser raises
+    an exception that `cli.py` turns into an error message and exit status 2. -/
+theorem rejected (s : Spec) (g : Globals) (hs : s.WF) (hg : GlobalsOK g) (hm : meaning s g = .error .cmdline) :
+    ∃ e, parse s.render s.opt.atype g s.records = .error e ∧ e.isCmdline = true :=
+  toKind_error_inv (by rw [parse_render s g hs hg, hm])
+
+/-- what makes a single adapter invalid, besides inconsistent parameters -/
+theorem meaningPart_invalid (t : AType) (inL : Bool) (p : Part) (base : Base) (nm : Option Str)
+    (h : paramsConsistent p.params = false ∨ classOf t p.restr (paramSem p.params).rightmost = none ∨
+      ((paramSem p.params).o.isSome = true ∧ p.restr.anchored = true) ∨ (inL = false ∧ (paramSem p.params).required.isSome = true)) :
+    meaningPart t inL p base nm = .error .cmdline := by
+  unfold meaningPart
+  by_cases hc : paramsConsistent p.params = true
+  · simp only [hc, Bool.not_true, Bool.false_eq_true, if_false]
+    rcases h with h | h | h | h
+    · rw [hc] at h; cases h
+    · rw [h]
+    · cases classOf t p.restr (paramSem p.params).rightmost with
+      | none => rfl
+      | some cls => simp [h]
+    · cases classOf t p.restr (paramSem p.params).rightmost with
+      | none => rfl
+      | some cls =>
+        simp only
+        split
+        · rfl
+        · simp [h]
+  · simp [hc]
+
+theorem rejected_single (o : Opt) (p : Part) (g : Globals) (hp : p.WF) (hg : GlobalsOK g)
+    (h : paramsConsistent p.params = false ∨ classOf o.atype p.restr (paramSem p.params).rightmost = none ∨
+      ((paramSem p.params).o.isSome = true ∧ p.restr.anchored = true) ∨ (paramSem p.params).required.isSome = true) :
+    ∃ e, parse p.render o.atype g [] = .error e ∧ e.isCmdline = true := by
+  apply rejected (.plain o (.single p)) g hp hg
+  have : meaningPart o.atype false p (Base.ofGlobals g) (Notation.optOr none p.name) = .error .cmdline := by
+    apply meaningPart_invalid
+    rcases h with h | h | h | h
+    · exact Or.inl h
+    · exact Or.inr (Or.inl h)
+    · exact Or.inr (Or.inr (Or.inl h))
+    · exact Or.inr (Or.inr (Or.inr ⟨rfl, h⟩))
+  simp [meaning, meaningBody, this]
+
+/-- **A parameter given twice** (under the same or an equivalent name, e.g. `e=…;max_errors=…`) is rejected. -/
+theorem rejected_duplicate_parameter (o : Opt) (p : Part) (g : Globals) (hp : p.WF) (hg : GlobalsOK g)
+    (h : ¬ (p.params.map (fun q => q.name.key)).Nodup) :
+    ∃ e, parse p.render o.atype g [] = .error e ∧ e.isCmdline = true :=
+  rejected_single o p g hp hg (Or.inl (by
+    cases hc : paramsConsistent p.params with
+    | false => rfl
+    | true => exact absurd ((consistent_iff _).mp hc).1 h))
+
+/-- **`optional` together with `required`** is rejected. -/
+theorem rejected_optional_and_required (o : Opt) (p : Part) (g : Globals) (hp : p.WF) (hg : GlobalsOK g)
+    (h1 : (paramDict p.params).has .optional = true) (h2 : (paramDict p.params).has .required = true) :
+    ∃ e, parse p.render o.atype g [] = .error e ∧ e.isCmdline = true :=
+  rejected_single o p g hp hg (Or.inl (by
+    cases hc : paramsConsistent p.params with
+    | false => rfl
+    | true => exact absurd ⟨h1, h2⟩ ((consistent_iff _).mp hc).2.1))
+
+/-- **`indels` together with `noindels`** is rejected. -/
+theorem rejected_indels_and_noindels (o : Opt) (p : Part) (g : Globals) (hp : p.WF) (hg : GlobalsOK g)
+    (h1 : (paramDict p.params).has .indels = true) (h2 : (paramDict p.params).has .noindels = true) :
+    ∃ e, parse p.render o.atype g [] = .error e ∧ e.isCmdline = true :=
+  rejected_single o p g hp hg (Or.inl (by
+    cases hc : paramsConsistent p.params with
+    | false => rfl
+    | true => exact absurd ⟨h1, h2⟩ ((consistent_iff _).mp hc).2.2))
+
+/-- **Placement restrictions on the wrong side**: `-a ^ADAPTER`, `-a XADAPTER`, `-g ADAPTER$`, `-g ADAPTERX` and any restriction
+    with `-b` are rejected. -/
+theorem rejected_restriction (o : Opt) (p : Part) (g : Globals) (hp : p.WF) (hg : GlobalsOK g)
+    (h : (o = .a ∧ (p.restr = .caret ∨ p.restr = .xLeft)) ∨ (o = .g ∧ (p.restr = .dollar ∨ p.restr = .xRight)) ∨
+      (o = .b ∧ p.restr ≠ .none)) :
+    ∃ e, parse p.render o.atype g [] = .error e ∧ e.isCmdline = true :=
+  rejected_single o p g hp hg (Or.inr (Or.inl (by
+    rcases h with ⟨rfl, h | h⟩ | ⟨rfl, h | h⟩ | ⟨rfl, h⟩
+    all_goals first
+      | (rw [h]; cases (paramSem p.params).rightmost <;> rfl)
+      | (cases hr : p.restr <;> first | exact absurd hr h | (cases (paramSem p.params).rightmost <;> rfl)))))
+
+/-- **`min_overlap`/`o` on an anchored adapter** (`^ADAPTER;o=…`, `ADAPTER$;min_overlap=…`) is rejected. -/
+theorem rejected_min_overlap_anchored (o : Opt) (p : Part) (g : Globals) (hp : p.WF) (hg : GlobalsOK g)
+    (h1 : (paramDict p.params).has .minOverlap = true) (h2 : p.restr = .caret ∨ p.restr = .dollar) :
+    ∃ e, parse p.render o.atype g [] = .error e ∧ e.isCmdline = true :=
+  rejected_single o p g hp hg (Or.inr (Or.inr (Or.inl ⟨h1, by rcases h2 with h | h <;> rw [h] <;> rfl⟩)))
+
+/-- **`rightmost` on anything but a regular 5' adapter** is rejected. -/
+theorem rejected_rightmost (o : Opt) (p : Part) (g : Globals) (hp : p.WF) (hg : GlobalsOK g)
+    (h1 : (paramSem p.params).rightmost = true) (h2 : ¬ (o = .g ∧ p.restr = .none)) :
+    ∃ e, parse p.render o.atype g [] = .error e ∧ e.isCmdline = true :=
+  rejected_single o p g hp hg (Or.inr (Or.inl (by
+    rw [h1]
+    cases o <;> cases hr : p.restr <;> first | rfl | exact absurd ⟨rfl, hr⟩ h2)))
+
+/-- **`required`/`optional` outside a linked adapter** is rejected. -/
+theorem rejected_required_outside_linked (o : Opt) (p : Part) (g : Globals) (hp : p.WF) (hg : GlobalsOK g)
+    (h : (paramDict p.params).has .required = true ∨ (paramDict p.params).has .optional = true) :
+    ∃ e, parse p.render o.atype g [] = .error e ∧ e.isCmdline = true :=
+  rejected_single o p g hp hg (Or.inr (Or.inr (Or.inr (by
+    simp only [paramSem]
+    rcases h with h | h
+    · by_cases ho : (paramDict p.params).has .optional = true
+      · simp [ho]
+      · simp only [ho, Bool.false_eq_true, if_false]; exact h
+    · simp [h]))))
+
+/-- **`-b ADAPTER1...ADAPTER2`**: linked adapters exist for `-a` and `-g` only. -/
+theorem rejected_linked_b (f b : Part) (g : Globals) (hs : (Spec.plain .b (.linked f b)).WF) (hg : GlobalsOK g) :
+    ∃ e, parse (Body.linked f b).render .anywhere g [] = .error e ∧ e.isCmdline = true :=
+  rejected (.plain .b (.linked f b)) g hs hg (by simp [meaning, meaningBody])
+
+/-! ## Linked adapters: which parts are required -/
+
+theorem buildPart_req {p : Part} {base : Base} {cls : Cls} {nm : Option Str} {fa : Bool} {a : Single} {r : Option Value}
+    (h : buildPart p base cls nm fa = .ok (a, r)) : r = (paramSem p.params).required := by
+  unfold buildPart at h
+  have h2 := ite_err_ok (ite_err_ok h)
+  injection h2 with h2
+  injection h2 with _ h2
+  exact h2.symm
+
+theorem meaningPart_req {t : AType} {inL : Bool} {p : Part} {base : Base} {nm : Option Str} {a : Single} {r : Option Value}
+    (h : meaningPart t inL p base nm = .ok (a, r)) : r = (paramSem p.params).required := by
+  unfold meaningPart at h
+  have h1 := ite_err_ok h
+  cases hc : classOf t p.restr (paramSem p.params).rightmost with
+  | none => rw [hc] at h1; cases h1
+  | some cls =>
+    rw [hc] at h1
+    exact buildPart_req (ite_err_ok (ite_err_ok h1))
+
+/-- **`required_defaults`**: in a linked adapter `PART1...PART2` each part is required or optional as its own
+    `required`/`optional` parameter says; without such a parameter, with `-g` both parts are required, and with `-a` a part is
+    required exactly if it carries a placement restriction (anchored `^`/`$` as documented; the implementation also counts the
+    non-internal `X` forms). -/
+theorem required_defaults (o : Opt) (f b : Part) (g : Globals) (hs : (Spec.plain o (.linked f b)).WF) (hg : GlobalsOK g)
+    {fa ba : Single} {fr br : Value} {nm : Option Str}
+    (h : parse (Body.linked f b).render o.atype g [] = .ok [.linked fa ba fr br nm]) :
+    fr = ((paramSem f.params).required).getD (.bool (if o = .g then true else f.restr.restricted)) ∧
+    br = ((paramSem b.params).required).getD (.bool (if o = .g then true else b.restr.restricted)) ∧
+    nm = f.name := by
+  have hm := parse_render (.plain o (.linked f b)) g hs hg
+  simp only [Spec.render, Spec.opt, Spec.records] at hm
+  rw [h] at hm
+  simp only [toKind, meaning] at hm
+  cases hmb : meaningBody o (.linked f b) (Base.ofGlobals g) none with
+  | error k => rw [hmb] at hm; cases hm
+  | ok d =>
+    rw [hmb] at hm
+    injection hm with hm
+    injection hm with hm _
+    subst hm
+    unfold meaningBody at hmb
+    simp only at hmb
+    have hmb2 := ite_err_ok hmb
+    cases hf : meaningPart .front true f (Base.ofGlobals g) (some (cs!"linked_front")) with
+    | error k => rw [hf] at hmb2; cases hmb2
+    | ok r1 =>
+      obtain ⟨fa', freq⟩ := r1
+      rw [hf] at hmb2
+      simp only at hmb2
+      cases hb : meaningPart .back true b (Base.ofGlobals g) (some (cs!"linked_back")) with
+      | error k => rw [hb] at hmb2; cases hmb2
+      | ok r2 =>
+        obtain ⟨ba', breq⟩ := r2
+        rw [hb] at hmb2
+        simp only at hmb2
+        injection hmb2 with hmb2
+        injection hmb2 with _ _ h3 h4 h5
+        rw [meaningPart_req hf] at h3
+        rw [meaningPart_req hb] at h4
+        exact ⟨h3.symm, h4.symm, by rw [← h5]; rfl⟩
+
+/-- `-a PART1...PART2` without `required`/`optional`: only restricted (anchored) parts are required. -/
+theorem required_defaults_a (f b : Part) (g : Globals) (hs : (Spec.plain .a (.linked f b)).WF) (hg : GlobalsOK g)
+    (hf : (paramSem f.params).required = none) (hb : (paramSem b.params).required = none)
+    {fa ba : Single} {fr br : Value} {nm : Option Str}
+    (h : parse (Body.linked f b).render .back g [] = .ok [.linked fa ba fr br nm]) :
+    fr = .bool f.restr.restricted ∧ br = .bool b.restr.restricted := by
+  obtain ⟨h1, h2, _⟩ := required_defaults .a f b g hs hg h
+  rw [hf] at h1; rw [hb] at h2
+  exact ⟨h1, h2⟩
+
+/-- `-g PART1...PART2` without `required`/`optional`: both parts are required. -/
+theorem required_defaults_g (f b : Part) (g : Globals) (hs : (Spec.plain .g (.linked f b)).WF) (hg : GlobalsOK g)
+    (hf : (paramSem f.params).required = none) (hb : (paramSem b.params).required = none)
+    {fa ba : Single} {fr br : Value} {nm : Option Str}
+    (h : parse (Body.linked f b).render .front g [] = .ok [.linked fa ba fr br nm]) :
+    fr = .bool true ∧ br = .bool true := by
+  obtain ⟨h1, h2, _⟩ := required_defaults .g f b g hs hg h
+  rw [hf] at h1; rw [hb] at h2
+  exact ⟨h1, h2⟩
+
 end Cutadapt.C18
